@@ -14,9 +14,35 @@ import (
 type (
 	Locker    = sync.Locker
 	WaitGroup = sync.WaitGroup
-	Map       = sync.Map
 	Cond      = sync.Cond
 )
+
+// Map is sync.Map with a scheduling point (an always-enabled yield) before every operation, so that interleavings
+// between two users of a lock-free map are explored; the real operations keep the race detector's view intact.
+type Map struct{ m sync.Map }
+
+func (m *Map) Load(k interface{}) (interface{}, bool) { vsched.Yield(); return m.m.Load(k) }
+func (m *Map) Store(k, v interface{})                 { vsched.Yield(); m.m.Store(k, v) }
+func (m *Map) LoadOrStore(k, v interface{}) (interface{}, bool) {
+	vsched.Yield()
+	return m.m.LoadOrStore(k, v)
+}
+func (m *Map) LoadAndDelete(k interface{}) (interface{}, bool) {
+	vsched.Yield()
+	return m.m.LoadAndDelete(k)
+}
+func (m *Map) Delete(k interface{})                      { vsched.Yield(); m.m.Delete(k) }
+func (m *Map) Swap(k, v interface{}) (interface{}, bool) { vsched.Yield(); return m.m.Swap(k, v) }
+func (m *Map) CompareAndSwap(k, old, new interface{}) bool {
+	vsched.Yield()
+	return m.m.CompareAndSwap(k, old, new)
+}
+func (m *Map) CompareAndDelete(k, old interface{}) bool {
+	vsched.Yield()
+	return m.m.CompareAndDelete(k, old)
+}
+func (m *Map) Range(f func(k, v interface{}) bool) { vsched.Yield(); m.m.Range(f) }
+func (m *Map) Clear()                              { vsched.Yield(); m.m.Clear() }
 
 func NewCond(l Locker) *Cond { return sync.NewCond(l) }
 
